@@ -21,7 +21,7 @@ LEVEL = "exploration"
 JAIL = True
 
 ATOMS = ["a", "kw1", "$Forwarded", "NonJunk", "a-b.c", "123", "x_y", "A1", "foo]bar", "a:b", "a=b", "&AOk-", "~home"]
-STRINGS = ["plain", "with space", 'qu"ote', "back\\slash", "", "8bit\xe9", "paren(", "star*", "pct%", "br{ace", "line\r\nbreak", "]", "INBOX", "inbox", "InBoX", "inboxfoo", "a/b", "a//b", "a/./b", "a/b/", "../x", "/abs", "NIL"]
+STRINGS = ["plain", "with space", 'qu"ote', "back\\slash", "", "8bit\xe9", "paren(", "star*", "pct%", "br{ace", "line\r\nbreak", "]", "INBOX", "inbox", "InBoX", "inboxfoo", "a/b", "a//b", "a/./b", "a/b/", "../x", "/abs", "NIL", "see footnote {3}", "ends {2+}", "{0}", "x{12}"]
 FLAGS = ["\\Seen", "\\Answered", "\\Flagged", "\\Deleted", "\\Draft", "\\Recent", "\\seen", "\\FooBar", "kw1", "$Forwarded", "a:b", "unseen"]
 
 
